@@ -50,7 +50,7 @@ def hint_asserts(c):
     out = []
     groups = [c.entry] + [ins[3] for ins in c.inserts] + [o["lines"] for o in c.outlines]
     for l in c.loops.values():
-        groups += [l["top"], l["bottom"]]
+        groups += [l["top"], l["bottom"], l.get("after", [])]
     for g in groups:
         for ln in g:
             m = HINT_LABEL.match(ln.strip())
@@ -116,6 +116,9 @@ def parse_vc(path):
                 cur.loops[loopn]["top"] += buf
             elif section == "bottom":
                 cur.loops[loopn]["bottom"] += buf
+            elif section == "after_loop":
+                cur.loops[loopn].setdefault("after", [])
+                cur.loops[loopn]["after"] += buf
             elif section == "insert":
                 ins[3].extend(buf)
             elif section == "outline":
@@ -204,6 +207,8 @@ def parse_vc(path):
                 section = "top"
             elif key == "@bottom":
                 section = "bottom"
+            elif key == "@after_loop":
+                section = "after_loop"
             elif key in ("@before", "@after"):
                 m = re.match(r"(?:(\d+)\s+)?`(.*)`\s*$", arg)
                 if not m:
@@ -858,6 +863,9 @@ def splice_body(em, body, c, fnid):
         if spec["bottom"]:
             cb = match_close(body, ob)
             add_ins(cb, ("raw", spec["bottom"]))
+        if spec.get("after"):
+            # hints placed right after the loop statement (an anchor that does not depend on the text of the next statement)
+            add_ins(match_close(body, ob) + 1, ("raw", spec["after"]))
     for where, nth, pat, lines in c.inserts:
         pos = -1
         start = 0
